@@ -43,7 +43,8 @@ def craft(path, spec):
             lk["link"] = sec
         pg = sec.create_group("properties", track_order=True)
         for p in spec["props"]:
-            vt = {"int": np.int64, "float": np.float64, "bool": np.bool_, "str": VLEN}[p["vtype"]]
+            vt = {"int": np.int64, "float": np.float64, "bool": np.bool_, "str": VLEN, "uint64": np.uint64, "int32": np.int32,
+                  "uint8": np.uint8, "int8": np.int8, "uint32": np.uint32, "float32": np.float32}[p["vtype"]]
             if p["new"]:
                 vals = p["values"] if p["vtype"] != "str" else [str(x) for x in p["values"]]
                 ds = pg.create_dataset(p["name"], data=np.array(vals, dtype=vt) if p["vtype"] != "str" else vals,
